@@ -151,6 +151,23 @@ pub fn cursor(ctx: &Ctx, rep: &mut Report) {
                 rep.sample(json!({"n": n, "cell": c.cell, "tail_hex": hex(&c.x[c.x.len() - 16..]), "accepted": acc}));
             }
         }
+        // sizes interleaved in one thread (state kept between calls, e.g. a scratch buffer sized
+        // by an earlier call, would show up here): production-size strings alternate with tiny ones
+        if job < 2 {
+            let big = cursor_sweep(n, l, &mut rng, false);
+            for (i, c) in big.iter().enumerate().take(300) {
+                check_decompress(&c.x, n, rep);
+                let tiny = [(i * 37) as u8, (i * 101 + 3) as u8, 0x80 | (i as u8)];
+                check_decompress(&tiny, 1 + i % 3, rep);
+                check_compress(&[(i as i64 % 257) - 128, 5], 3, rep);
+                if let Some(v) = spec::decompress(&c.x, n) {
+                    if v.iter().all(|x| x.abs() < 12160) {
+                        check_compress(&v, l, rep);
+                    }
+                }
+                rep.count("interleaved_size_switches", 2);
+            }
+        }
         // small sizes as well: all (n, l) with n <= 4, l <= 6
         if job < 2 {
             for n in 1..=4usize {
